@@ -13,9 +13,11 @@ R7 loop index discipline for derived ids
 R8 connect_interface creates the service port and the link as a unit
 """
 import ast
+
+from ..normalize import branch_values, Unknown, inline, local_env, expand, canon, ctext, conjuncts
 import re
 
-from ..core import AnalysisError, norm, loc, walk_no_nested, attr_chain, call_name, kwarg
+from ..core import AnalysisError, norm, loc, walk_no_nested, attr_chain, call_name, kwarg, func_params
 from ..cfg import CFG
 from ..schema import containment_schema
 from .. import nxgraph as nxg
@@ -361,8 +363,21 @@ def run(prog, rep):
     if not ok:
         rep.violation('R8', loc(ns.module, ci), 'NetworkService.connect_interface', 'service port and link not created as a unit',
                       'every service port must get exactly one peer: the link joining the node interface and the new port must follow the port')
-    lt = [n for n in walk_no_nested(ci) if isinstance(n, ast.If) and 'SharedPort' in ast.unparse(n.test)]
-    if not lt or 'LinkType.L2Path' not in ast.unparse(lt[0].body) or 'LinkType.Patch' not in ast.unparse(lt[0].orelse):
+    def link_sink(st):
+        if isinstance(st, (ast.Expr, ast.Assign)) and isinstance(st.value, ast.Call) and isinstance(st.value.func, ast.Name) and st.value.func.id == 'Link':
+            return kwarg(st.value, 'ltype')
+        return None
+    try:
+        outs = branch_values(inline(prog, ns, ci).body, link_sink, follow_loops=True)
+    except Unknown as u:
+        raise AnalysisError(f'connect_interface: link type selection not analysable: {u}')
+    iparam = [p_ for p_ in func_params(ci) if p_ != 'self'][0]
+    shared = ctext(ast.parse(f'{iparam}.type == InterfaceType.SharedPort', mode='eval').body)
+    not_shared = ctext(ast.parse(f'{iparam}.type != InterfaceType.SharedPort', mode='eval').body)
+    sel = {'shared': {o.vtext for o in outs if shared in o.conds}, 'other': {o.vtext for o in outs if not_shared in o.conds},
+           'unconditional': {o.vtext for o in outs if shared not in o.conds and not_shared not in o.conds}}
+    rep.instance('R8', f'connect_interface: link type by interface kind {dict((k, sorted(v)) for k, v in sel.items())}')
+    if sel['shared'] != {'LinkType.L2Path'} or sel['other'] != {'LinkType.Patch'} or sel['unconditional']:
         rep.violation('R8', loc(ns.module, ci), 'NetworkService.connect_interface', 'link type selection', 'shared ports are linked by L2Path, others by Patch')
 
 
